@@ -251,6 +251,9 @@ def corrupt_artifact():
             if rc == 0 and r != 'state-1':
                 return {'kind': 'corrupt-artifact-was-used', 'variant': variant, 'result': r, 'history': log}, log
             if rc != 0:
+                # the very same command again: a rejected artifact must not be taken as "already downloaded" the second time
+                rc3, out3 = D.bob('dev', 'r0', '--download', 'yes'); r3 = result_of(D); log.append('same command again -> %d' % rc3)
+                if rc3 == 0 and r3 != 'state-1': return {'kind': 'corrupt-artifact-was-used', 'variant': variant, 'result': r3, 'when': 'second invocation after the rejection', 'history': log}, log
                 rc2, out2 = D.bob('dev', 'r0', '--download', 'no'); r2 = result_of(D)
                 if rc2 == 0 and r2 != 'state-1': return {'kind': 'rejected-artifact-content-survived-into-the-next-build', 'variant': variant, 'result': r2, 'history': log}, log
         return None, log
